@@ -393,6 +393,8 @@ where
         // incarnation: the read set keeps a single version per location, so a marker published or
         // removed between two slot reads would otherwise replace the version the first slot was
         // resolved with, and validation would accept a slot value that ignored the marker.
+        #[cfg(grevm_verif)]
+        let verif_fresh_reset_lookup = !self.read_set.contains_key(&reset_location);
         if let Some(recorded) = self.read_set.get(&reset_location) {
             if let ReadVersion::MvMemory(version) = recorded {
                 reset_txid = Some(version.txid);
@@ -409,7 +411,9 @@ where
             reset_version = ReadVersion::MvMemory(TxVersion::new(txid, entry.incarnation));
         }
         #[cfg(grevm_verif)]
-        self.verif_mv_read(&reset_location, &reset_version);
+        if verif_fresh_reset_lookup {
+            self.verif_mv_read(&reset_location, &reset_version);
+        }
         self.read_set.insert(reset_location, reset_version);
 
         let location = LocationAndType::Storage(address, index);
